@@ -21,6 +21,13 @@ func run(c *vf.Ctx) {
 	c.Assume("crypto/aes is a correct AES; values outside the alphabet are not enumerated")
 	sectors := []uint64{0, 1, 1<<32 - 1, 1 << 32, 1 << 63, 1<<64 - 1, 0x3333333333}
 	maxLen := 4096
+	if c.Thorough {
+		// every single-bit sector number and its predecessor, and data units up to 16 KiB
+		for k := 1; k < 64; k++ {
+			sectors = append(sectors, 1<<uint(k), 1<<uint(k)-1)
+		}
+		maxLen = 16384
+	}
 	type pt struct {
 		ks  int
 		sec uint64
@@ -87,6 +94,7 @@ func run(c *vf.Ctx) {
 		if g.n >= 32 {
 			c.Nontrivial(fmt.Sprintf("%d/%d/%d", g.ks, g.sec, g.n/16))
 		}
+		c.Outcome(fmt.Sprintf("blocks-mod-32=%d", (g.n/16)%32))
 		if c.WantSample() && g.n == 4096 {
 			c.Sample(map[string]any{"keysize": g.ks, "sector": g.sec, "len": g.n, "key_classes": len(keys)})
 		}
